@@ -315,6 +315,9 @@ def check(ctx):
            'called a material/50-move/repetition draw hides mates (C07.R2-R4)%s'
            % ('' if not bad else ' — refuted: ' + '; '.join('%s' % r[0] for r in bad)), site=bad[0][4] if bad else s.loc())
 
+    # ---- R7b what the nodes decide before they look at moves: decided for every valuation of the leading conditions -----
+    _entry_table(ctx, p)
+
     # ---- R6 witness ------------------------------------------------------------------------------
     n_as, fails = compile_witness('C08.cc')
     for (fn_, line, msg) in fails:
@@ -324,6 +327,80 @@ def check(ctx):
                site='witness/C08.cc', sample=(i < 2))
     ctx.floor('C08.R6.witness', n_as, 10, 'static_asserts')
     ctx.note('not decided: that a printed mate distance is forced or minimal (needs a game-tree solver)')
+
+
+def _entry_table(ctx, p):
+    """search()/quiescence_search(): the statements up to the last draw test, evaluated for every valuation of their
+    conditions. Only a non-root node of a drawn (material, 50 moves, repetition) game may return VALUE_DRAW before any move
+    is tried; every other node goes on to its moves (returning the draw value for a node that is not drawn hides every mate
+    below it; cutting the root leaves the answer without a move)."""
+    import itertools
+    from rules.norm import Norm, cond_value, Unknown
+    DRAWS = ('engine::Position::is_draw', 'engine::Position::is_repeated')
+    vdraw = p.val('engine::VALUE_DRAW')
+    for name in ('engine::Search::search', 'engine::Search::quiescence_search'):
+        f = p.fn(name)
+        top = [st for st in kids(f.body) if st is not None]
+        mention = [i for i, st in enumerate(top) if st['k'] == 'IfStmt' and
+                   any((x.get('callee') or {}).get('n') in DRAWS for x in walk(kids(st)[0]))]
+        gen = [i for i, st in enumerate(top) if any((x.get('callee') or {}).get('n') == 'engine::generate_moves' for x in walk(st))]
+        if not mention or not gen or mention[-1] > gen[0]:
+            raise AnalysisBroken('C08: %s: no draw test ahead of move generation among the top-level statements' % short(f.name))
+        prefix = top[:mention[-1] + 1]
+        nm = Norm(f)
+        isq = 'quiescence' in name
+        keys = ['check_limits()', 'stop_search.operator bool()', 'stop_search', 'position.is_draw()', 'position.is_repeated()',
+                'info._ply', 'depth']
+
+        def outcome(val):
+            nv = nm
+            for st in prefix:
+                k = st['k']
+                if k == 'IfStmt':
+                    ks = kids(st)
+                    br = ks[1] if cond_value(nv, ks[0], val) else (ks[2] if len(ks) > 2 else None)
+                    if br is None:
+                        continue
+                    rets = [x for x in walk(br) if x['k'] == 'ReturnStmt']
+                    inner = [x for x in walk(br) if x['k'] in ('IfStmt', 'ForStmt', 'WhileStmt', 'SwitchStmt')]
+                    if rets and inner:
+                        raise Unknown('a nested decision in the statement at line %s' % st.get('l'))
+                    if rets:
+                        v = kids(rets[0])[0] if kids(rets[0]) else None
+                        r = strip_casts(v) if v is not None else None
+                        if r is not None and (r.get('ref') or {}).get('k') == 'Local':
+                            from rules.effects import single_def
+                            d0 = single_def(f, r['ref']['id'])
+                            v = d0 if d0 is not None else v
+                        return 'DRAW' if v is not None and nv.cval(v) == vdraw else 'ret'
+                elif k in ('ForStmt', 'WhileStmt', 'DoStmt', 'SwitchStmt', 'CXXForRangeStmt', 'ReturnStmt', 'GotoStmt'):
+                    if k == 'ReturnStmt' or any(x['k'] == 'ReturnStmt' for x in walk(st)):
+                        raise Unknown('statement %s at line %s' % (k, st.get('l')))
+            return 'through'
+
+        bad, n = [], 0
+        for stop, lim, draw, rep, root, d0 in itertools.product((0, 1), repeat=6):
+            val = {'check_limits()': lim, 'stop_search.operator bool()': stop, 'stop_search': stop, 'position.is_draw()': draw,
+                   'position.is_repeated()': rep, 'info._ply': 0 if root else 3, 'depth': 0 if d0 else 3}
+            try:
+                got = outcome(val)
+            except Unknown as e:
+                raise AnalysisBroken('C08: %s: the statements before the move loop depend on `%s`, which the entry table cannot evaluate' % (short(f.name), e))
+            n += 1
+            if stop or lim:
+                want = ('ret', 'DRAW')
+            elif isq:
+                want = ('ret', 'DRAW') if d0 else (('through', 'DRAW') if draw or rep else ('through',))
+            else:
+                want = ('through', 'DRAW') if (not root and (draw or rep)) else ('through',)
+            if got not in want:
+                bad.append('stop=%d limits=%d draw=%d repeated=%d root=%d depth0=%d: %s, must be %s' % (stop, lim, draw, rep, root, d0, got, '/'.join(want)))
+        ctx.ob('C08.R7.entry-table', short(f.name), not bad,
+               'before any move is tried %s returns the draw value only for a %sdrawn node (is_draw / is_repeated) and otherwise goes on to '
+               'its moves; not deciding a drawn node here is allowed, mates found below it are still forced '
+               '(%d valuations of the leading conditions)%s' % (short(f.name), '' if isq else 'non-root ', n,
+                                                                 '' if not bad else ' — ' + '; '.join(bad[:3])),
+               site=f.loc(top[mention[0]]))
 
 
 def _chosen_literals(nm, e):
